@@ -119,7 +119,7 @@ func RunBig(bc BigCase, stt *Stats) *Diff {
 	} else {
 		got, _, err = RealEncode(vals, bc.Enc, bc.Salt, stt)
 	}
-	cls := fmt.Sprintf("len>%s", lenClass(bc.Len))
+	cls := "len" + lenClass(bc.Len)
 	if err != nil {
 		return &Diff{Invariant: "Layout", Type: "string", Mode: mode(bc.Enc), Class: "sender-error:" + cls, Detail: err.Error()}
 	}
@@ -146,11 +146,11 @@ func RunBig(bc BigCase, stt *Stats) *Diff {
 func lenClass(n int) string {
 	switch {
 	case n < 16384-9:
-		return "0"
+		return "<Target"
 	case n < 1048576-41:
-		return "Target"
+		return ">=Target"
 	default:
-		return "Max-41"
+		return ">=Max"
 	}
 }
 
